@@ -15,7 +15,7 @@ import numpy as np
 from . import common
 from . import c10_translate
 
-THEOREM_FILES = ['NumqiProps/C10.lean', 'NumqiProps/C10Generated.lean']
+THEOREM_FILES = ['NumqiProps/C10.lean', 'NumqiProps/C10Generated.lean', 'NumqiProps/C10Validity.lean']
 GREP_FILES = ['NumqiModel/Generated/SeedPrograms.lean']
 LEVEL = 'proof'
 RULE = ('one model program per function/method/class with a seed (or generator) parameter in the nine anchored files, regenerated from the source on '
@@ -47,10 +47,38 @@ def translate(ctx):
     n = len(listed)
     ctx.extra['translated_programs'] = n
     ctx.extra['translated_not_closed'] = [e.name for e in listed if not c10_translate.closed_py(n, [], e.stmts)]
-    ctx.extra['outside_anchored_files_static'] = {e.name: bool(c10_translate.closed_py(len(tr.order), [], e.stmts)) for e in tr.order if not e.listed}
+    ctx.extra['outside_anchored_files_static'] = {e.name: dict(closed=bool(c10_translate.closed_py(len(tr.order), [], e.stmts)), closed_with_callees=bool(tclosed_py(tr, e)))
+                                                  for e in tr.order if not e.listed}
     ctx.extra['user_callbacks_handed_the_generator'] = sorted(set(tr.callbacks))
     ctx.note('calls through objects assumed not to draw: ' + ', '.join(sorted(k for k in tr.unresolved if not any(s in k for s in ('.reshape', '.conj', '.append', '.copy', '.sum', '.transpose', 'len', 'id')))))
     return tr
+
+
+def callees_py(stmts):
+    out = []
+    for st in stmts:
+        if st[0] == 'call':
+            out.append(st[1])
+        elif st[0] == 'branch':
+            out += callees_py(st[2]) + callees_py(st[3])
+        elif st[0] == 'loop':
+            out += callees_py(st[2])
+    return out
+
+
+def tclosed_py(tr, ent):
+    """closed together with everything it calls (python mirror, used for the entry points outside the anchored files)"""
+    n = len(tr.order)
+    seen, todo = set(), [ent.index]
+    while todo:
+        i = todo.pop()
+        if i in seen or i >= n:
+            continue
+        seen.add(i)
+        if not c10_translate.closed_py(n, [], tr.order[i].stmts):
+            return False
+        todo += callees_py(tr.order[i].stmts)
+    return True
 
 
 def get_tr(ctx):
@@ -326,6 +354,49 @@ def recipes(quick):
     return out
 
 
+def extra_recipes():
+    """seeded entry points outside the nine anchored files (evidence only, not obligations)"""
+    import numqi
+    I2 = np.eye(2); X = np.array([[0, 1], [1, 0.]]); Y = np.array([[0, -1j], [1j, 0]]); Z = np.diag([1., -1])
+    ud = numqi.unique_determine
+    rho = numqi.random.rand_density_matrix(3, seed=1)
+    ops3 = np.stack([I2, X, Z]).astype(np.complex128)
+    ops4 = np.stack([I2, X, Y, Z]).astype(np.complex128)
+    return [
+        ('numqi.utils.get_purification', 'dimR=4', lambda s: numqi.utils.get_purification(rho, dimR=4, seed=s)),
+        ('numqi.entangle.pureb_quantum.get_mps_dicke_transform_matrix', 'dim=2,num_qudit=3', lambda s: numqi.entangle.pureb_quantum.get_mps_dicke_transform_matrix(2, 3, seed=s)),
+        ('numqi.matrix_space._misc.get_completed_entangled_subspace', "(2,2),'quant-ph/0405077'", lambda s: numqi.matrix_space.get_completed_entangled_subspace((2, 2), 'quant-ph/0405077', seed=s)[:3]),
+        ('numqi.unique_determine._uda_udp.check_UD', 'udp,[I,X,Z]', lambda s: ud.check_UD('udp', ops3, num_repeat=2, dtype='float64', tag_single_thread=False, seed=s)),
+        ('numqi.unique_determine._uda_udp.find_optimal_UD', 'udp,[I,X,Y,Z]', lambda s: ud.find_optimal_UD('udp', 1, ops4, num_repeat=2, dtype='float64', tag_single_thread=False, seed=s)),
+        ('numqi.unique_determine._recovery.check_UD_is_UD', 'udp,[I,X,Y,Z]', lambda s: ud.check_UD_is_UD(ops4, 'udp', num_round=2, num_repeat_sgd=10, seed=s)),
+    ]
+
+
+def extras(ctx):
+    """dynamic double-run of the seeded entry points outside the anchored files; results go to the evidence only"""
+    tr = get_tr(ctx)
+    static = {e.name: tclosed_py(tr, e) for e in tr.order if not e.listed}
+    out = {}
+    for name, label, f in extra_recipes():
+        rec = dict(arguments=label, static_closed_with_callees=static.get(name))
+        for s in (0, 5 + ctx.seed):
+            try:
+                ok, (a, b), events, _ = run_recipe(f, s)
+                rec.setdefault('runs', []).append(dict(seed=s, bit_identical=bool(ok), events=events))
+            except Exception as e:
+                rec.setdefault('runs', []).append(dict(seed=s, raised=f'{type(e).__name__}: {e}'[:200]))
+        runs = rec['runs']
+        rec['dynamic_closed'] = all(r.get('bit_identical') and not r.get('events') for r in runs)
+        rec['agrees_with_static'] = (rec['dynamic_closed'] == rec['static_closed_with_callees'])
+        out[name] = rec
+        ctx.count('extra-entry-point')
+    ctx.extra['outside_anchored_files_dynamic'] = out
+    dis = [k for k, v in out.items() if not v['agrees_with_static']]
+    ctx.note('entry points outside the anchored files (not obligations): ' + '; '.join(
+        f"{k.split('numqi.')[-1]}: static {'closed' if v['static_closed_with_callees'] else 'NOT closed'}, dynamic {'clean' if v['dynamic_closed'] else 'not clean ' + str(sorted({e for r in v['runs'] for e in r.get('events', [])} | {r['raised'] for r in v['runs'] if 'raised' in r}))}"
+        for k, v in out.items()) + ('' if not dis else ' — static/dynamic disagree for: ' + ', '.join(dis)))
+
+
 def run_recipe(f, seed, prep=None):
     """two calls with the same seed under different global-generator histories; returns (ok, detail, events)"""
     perturb(2 * seed + 1)
@@ -438,6 +509,10 @@ def correspondence(ctx):
             ctx.agree(ops2[i], (ops2[i], same))
     ctx.extra['recipes'] = len({(r['name'], r['label']) for r in res})
     ctx.extra['exhaustive'] = False
+    try:
+        extras(ctx)
+    except Exception as e:      # evidence only: never affects the verdict
+        ctx.note(f'extra entry points: not evaluated ({type(e).__name__}: {e})')
 
 
 # ---------------------------------------------------------------------------------------------------------
